@@ -5,8 +5,9 @@ from common import enc_f, dec_f, close, rng
 import mechrun
 
 LEAN_MODULE = 'PGM.Properties.C05'
-LEAN_EXTRA = ['PGM.Properties.C05B']
+LEAN_EXTRA = ['PGM.Properties.C05B', 'PGM.Properties.C05S']
 NEEDS_GENERATED = True
+TRANSLATORS = ('py2lean', 'py2flow', 'py2sel')   # py2sel: the selection sites (score functions, declared sensitivities, exponential mechanisms) of the four mechanisms -> Generated/SelectG.lean; C05S proves that the declared sensitivity bounds the score change and the per-selection cost
 TRUSTED = ['Lean 4.33 kernel', 'axioms: propext, Classical.choice, Quot.sound',
            'tools/py2lean.py slices: every budget / scale expression of the four mechanisms is regenerated from mechanisms/*.py on each run; the hand-written ledger skeletons compose them as the control flow does',
            'the DP calculus (Gaussian Delta^2/2sigma^2 zCDP, selection eps\'^2/8, Laplace Delta_1/b, additive composition) is the charging rule the property prescribes, not derived',
